@@ -52,6 +52,9 @@ CHAIN_REPL = {"name": "chain-replicas", "kind": "replicas", "files": CHAIN, "mod
 UPG = ["Upgrade.tla", "mc/MBT_Upgrade.tla"]
 UPG_MBT = mbt("upgrade", UPG, "MBT_Upgrade.tla", "upgrade", "mc/MBT_Upgrade_quick.cfg", "mc/MBT_Upgrade_thorough.cfg", qopts={"walks": 0}, topts={"walks": 0})
 
+HOST = ["Hostile.tla", "mc/MBT_Hostile.tla"]
+HOST_MBT = mbt("hostile", HOST, "MBT_Hostile.tla", "hostile", "mc/MBT_Hostile_quick.cfg", "mc/MBT_Hostile_quick.cfg", qopts={"walks": 0}, topts={"walks": 0})
+
 TRUST = ["TLC 1.8.0 and the TLA+ CommunityModules Json module", "the Go harness projection functions (harness/*)",
          "cosmos-sdk bank/auth keepers as the ground truth for balances and accounts"]
 
@@ -71,6 +74,9 @@ PROPS = {
     "C13": {"level": "model_checking", "stages": [MINTER_UPD, DIST_UPD, VEST_ACCTS, CHAIN_MBT], "assumptions": CHAIN_ASSUME},
     "C16": {"level": "model_checking", "stages": [UPG_MBT],
             "assumptions": TRUST + ["the upgrade is executed as its parts (the three Migrator.Migrate2to3, v120.UpdateVestingAccountTraces, ModifyVestingPoolsState, ModifyVestingAccountsState) on a store filled with legacy-format records; x/upgrade plan handling and the ICA module initialisation are not driven"]},
+    "C20": {"level": "model_checking", "stages": [HOST_MBT, VEST_ACCTS, SIG_MBT, DIST_UPD, MINTER_UPD],
+            "assumptions": TRUST + ["field value classes are concretised by the harness (one representative per class); handlers are called through the modules' message servers, queries through the keepers' gRPC methods",
+                                    "a panic of a handler on a message that ValidateBasic rejects is counted (handler-only) but not reported: a signer cannot reach it"]},
     "C18": {"level": "model_checking", "stages": [MINTER_SCHED, DIST_CUR, VEST_POOLS], "assumptions": TRUST},
     "C19": {"level": "model_checking", "stages": [MINTER_MC, MINTER_SCHED, MINTER_UPD], "assumptions": TRUST + ["inflation is compared with the model value within 2/P (the model truncates the same rational at 1/P twice)"]},
     "C05": {"level": "model_checking", "stages": [VEST_MC, VEST_POOLS], "assumptions": VEST_ASSUME},
